@@ -158,7 +158,8 @@ Definition infer_loop {V} (inf : V -> V) (pi : list (str * V)) (m : fmap V) : fm
   build_loop (fun k _ => k) (fun _ v => inf v) pi m.
 
 (* ------------------------------------------------------------------ *)
-(* pkg/evaluator/evaluator.go: evalMapLiteral
+(* pkg/evaluator/evaluator.go: evalMapLiteral, as it was before /repo 7307e12
+   (kept: the theorem for the present loop is stated relative to it)
      for key, node := range m.Pairs { val, err := e.eval(node); if err != nil { return nil, err }; pairs[key] = copyOrRef(val) }
    S is the whole evaluator state including the platform trace. *)
 Section EvalMapLiteral.
@@ -174,7 +175,7 @@ Section EvalMapLiteral.
         end
     end.
   Definition evalMapLiteral (pi : list (str * Nd)) (s : S) := evalMapLiteral_loop pi s fempty.
-  (* proposed fix: for _, key := range m.Order { node := m.Pairs[key] … } *)
+  (* the code since /repo 7307e12: for _, key := range m.Order { node := m.Pairs[key] … } *)
   Definition evalMapLiteral_fixed (order : list (str * Nd)) (s : S) := evalMapLiteral_loop order s fempty.
 End EvalMapLiteral.
 
@@ -366,26 +367,47 @@ Definition dec_eqpair (x : sx) : str * (val * val) :=
   | _ => ([], (VNum 0, VNum 0))
   end.
 
+(* ------------------------------------------------------------------ *)
+(* THE MODEL IN FORCE.  Each definition mirrors /repo as it is today; when the
+   corresponding proposed fix (proposed_fixes/C08-*.diff) is merged, switch the
+   right-hand side to the _fixed variant given in the comment (one line), and
+   the registry entry in Props/C08.v to OrderIndependent.  [pi] is the runtime's
+   iteration order, [order] the source/insertion order. *)
+Definition validateScope_cur (pi order : list (str * var)) : list perr :=
+  validateScope pi.                        (* fixed: validateScope_fixed pi *)
+Definition evalMapLiteral_cur (pi order : list (str * mnode)) (s : list Z) :=
+  evalMapLiteral_fixed mev order s.        (* since /repo 7307e12 (ranges over m.Order); before: evalMapLiteral mev pi s *)
+Definition parseFontProps_cur (pi order : list (str * fval)) : ferr + fmap fval :=
+  parseFontProps pi.                       (* fixed: parseFontProps_fixed order *)
+Definition parseMapLiteral_sub_cur (pi order : list (str * ty)) : ty :=
+  parseMapLiteral_sub pi.                  (* fixed: parseMapLiteral_sub_fixed order *)
+Definition mapVal_Equals_cur (pi order : list (str * val)) (len2 : nat) (m2 : fmap val) : tri :=
+  mapVal_Equals veq pi len2 m2.            (* fixed: mapVal_Equals veq order len2 m2 *)
+
 Definition perm_case (x : sx) : sx :=
   match x with
   | Lst (Sym site :: args) =>
       if str_eqb site (s_ "validateScope") then
-        Lst (map (fun pi => Lst (map enc_perr (validateScope pi))) (perms (map dec_var args)))
+        let order := map dec_var args in
+        Lst (map (fun pi => Lst (map enc_perr (validateScope_cur pi order))) (perms order))
       else if str_eqb site (s_ "validateScope-fixed") then
         Lst (map (fun pi => Lst (map enc_perr (validateScope_fixed pi))) (perms (map dec_var args)))
       else if str_eqb site (s_ "evalMapLiteral") then
-        Lst (map (fun pi => enc_mres (evalMapLiteral mev pi [])) (perms (map dec_mnode args)))
+        let order := map dec_mnode args in
+        Lst (map (fun pi => enc_mres (evalMapLiteral_cur pi order [])) (perms order))
       else if str_eqb site (s_ "fontProps") then
-        Lst (map (fun pi => enc_fres (parseFontProps pi)) (perms (map dec_fval args)))
+        let order := map dec_fval args in
+        Lst (map (fun pi => enc_fres (parseFontProps_cur pi order)) (perms order))
       else if str_eqb site (s_ "combine") then (* exactly this order *)
         enc_ty (combineTypes (map (dec_ty 12) args))
       else if str_eqb site (s_ "combine-all") then
-        Lst (map (fun pi => enc_ty (combineTypes pi)) (perms (map (dec_ty 12) args)))
+        let order := map (fun t => (@nil N, dec_ty 12 t)) args in
+        Lst (map (fun pi => enc_ty (parseMapLiteral_sub_cur pi order)) (perms order))
       else if str_eqb site (s_ "equals") then
         let es := map dec_eqpair args in
         let m2 : fmap val := fun k => match find (fun e => str_eqb (fst e) k) es with Some e => Some (snd (snd e)) | None => None end in
-        Lst (map (fun pi => enc_tri (mapVal_Equals veq pi (List.length es) m2))
-                 (perms (map (fun e => (fst e, fst (snd e))) es)))
+        let order := map (fun e => (fst e, fst (snd e))) es in
+        Lst (map (fun pi => enc_tri (mapVal_Equals_cur pi order (List.length es) m2)) (perms order))
       else if str_eqb site (s_ "names") then
         Lst (map (fun pi => Lst (map Str (eventHandlerNames pi))) (perms (map (fun a => (sx_str_of a, tt)) args)))
       else Sym (s_ "unknown-site")
